@@ -106,8 +106,10 @@ def bound_text(tier):
             fam["part"], "/".join(repr(k) for k in fam["keys"]), fam["depth"], fam["lo"], fam["hi"], len(sc), len(ar),
             (" (key %r occurs)" % fam["must"]) if fam["must"] else ""))
     return ("document pairs enumerated jointly with <= 'slots' leaf slots in the union of both documents (an array is one "
-            "slot); F: x all lists of 1..2 distinct patterns out of <= 13 per key set; P: all ordered pairs; A: all "
-            "documents x the same lists; C: all compatible triples x pattern pairs x 2 orders. Families: " + "; ".join(out))
+            "slot); F: x all lists of 1..2 distinct patterns out of <= 13 per key set; P: all ordered pairs "
+            "(each also through PCDeployerJob.parse_result); A: all "
+            "documents x the same lists; C: all compatible triples x pattern pairs x 2 orders x 3 positions of another file's "
+            "generator. Families: " + "; ".join(out))
 
 
 def setup():
